@@ -10,6 +10,7 @@ mod vgen;
 mod genapi;
 mod monitor;
 mod oracle;
+mod sdk;
 mod xmlapi;
 
 use crate::core::{RunCtx, Tier, harness_error};
